@@ -2,7 +2,7 @@
 (* Byte-sequence helpers shared by all specifications. A byte string is a TLA+ sequence of
    integers 0..255. TLC integers are 32-bit, so only values < 2^31 are ever turned into integers;
    wide values stay little-endian byte sequences (winterfell's canonical encoding is little-endian). *)
-EXTENDS Naturals, Sequences
+EXTENDS Integers, Sequences
 
 Min2(a, b) == IF a < b THEN a ELSE b
 Max2(a, b) == IF a > b THEN a ELSE b
